@@ -84,6 +84,12 @@ def run_variant(args: Tuple[str, Dict[str, Any]]) -> Dict[str, Any]:
     tmp = tempfile.mkdtemp(prefix="skv_")
     try:
         make_copy(repo_root, tmp)
+        if v.get("patch"):
+            import subprocess
+            pf = os.path.join(os.path.dirname(REFACTORS), v["patch"], "patch.diff")
+            r0 = subprocess.run(["patch", "-p1", "-s", "-f", "-i", pf], cwd=tmp, capture_output=True, text=True)
+            if r0.returncode != 0:
+                return {"id": v["id"], "skipped": "base patch %s does not apply" % v["patch"]}
         err = apply_edits(tmp, v["edits"])
         if err:
             return {"id": v["id"], "skipped": err}
